@@ -123,6 +123,13 @@ func C11(tier string) int {
 			{"f contains " + lit, map[string]bool{s: true, "q" + s + "q": true}},
 			{"f not contains " + lit, map[string]bool{s: false}},
 			{"f = " + lit + ` or f = "never"`, map[string]bool{s: true, other: false}},
+			{"f icontains " + lit, map[string]bool{s: true, "q" + s + "q": true}},
+			{"f not icontains " + lit, map[string]bool{s: false}},
+		}
+		if s != "" && !strings.Contains(s, "é") {
+			// case-insensitive: the ASCII upper-case spelling of the field matches, a shorter field does not
+			positions[8].at[strings.ToUpper(s)] = true
+			positions[8].at[s[:len(s)-1]] = false
 		}
 		if s != "" {
 			positions[5].at[s[:len(s)-1]] = false
